@@ -47,6 +47,9 @@ structure KState where
   lossy : Bool := false
   /-- virtual time of the previous observation -/
   lastNow : Nat := 0
+  /-- the client is slow to return after cancellation and one of its calls is outstanding: the controller's own Done
+      may lag, nothing below it may -/
+  lagging : Bool := false
 
 def stateAt (h : List (Int × EvT × Obj)) (n : Nat) : Items Key Obj :=
   (h.take n).foldl (fun m e => serverApply m e.2.1 e.2.2) []
@@ -113,6 +116,7 @@ def ctrlLine (st : KState) (e : SExp) : KState × String :=
   | .list [.atom "burst-begin"] => ({ st with inBurst := true }, "ok")
   | .list [.atom "burst-end"] => ({ st with inBurst := false }, "ok")
   | .list [.atom "settle", b] => ({ st with settled := true, blocked := decBool b != some false }, "ok")
+  | .list [.atom "cancel-lag", .atom v] => ({ st with lagging := v == "on" }, "ok")
   | .list [.atom "closeroot"] => ({ st with closing := true }, "ok")
   | .list [.atom "cancel"] => ({ st with closing := true }, "ok")
   | .list [.atom "close-returned", b] =>
@@ -150,6 +154,10 @@ def ctrlLine (st : KState) (e : SExp) : KState × String :=
         else (st1, "ok")
       else if d && !st.closing then
         fail s!"reject C14/C04/C03/C13 the controller stopped (Error {err}) although no list failed and nobody closed it"
+      else if st.closing && st.lagging && !d then
+        -- the controller waits for its client; its subscriber (everything below it) must be closed already
+        if sd == .atom "false" then fail "reject C11 the controller was closed but its subscriber is not done: the tree below a controller must not wait for the controller's client calls to return"
+        else (st1, "ok")
       else if st.closing then
         if !d then fail "reject C12/C11 the controller is not done at the quiescent point after Close/cancel"
         else if err != "nil" && err != "canceled" && !failed then fail s!"reject C14 a deliberately closed controller reports Error {err}"
